@@ -245,7 +245,7 @@ EXTRA = {
  "C08": " callRole.GetHooksMapForTrigger hands out a fresh Call per lookup (a pending execution is never overwritten by a restart). both weight passes (negative, non-negative) of a moment call handleHooks exactly once whatever hooks exist; TeardownEnvironment cancels pending calls only after its own leave_ and DESTROY hooks.",
  "C09": " (*Call).Call: a hook expression that cannot be evaluated, or whose execution fails, makes the call return a non-nil error. callRole.copy keeps the Traits (critical, trigger, await, timeout) of the original.",
  "C12": " commit builds the placeholder error response of an unanswered target for that target (not reused across targets). the queue worker of CommandQueue.Start hands every committed command's result to its caller with a blocking send of exactly what commit returned, before the next entry is taken.",
- "C13": " roleBase.copy: the copy's Connect slice has its own backing array (append is modelled with in-place growth, so re-slicing the source is caught). GetWantsForDescriptor merges inbound channels with the role-level declarations outranking the task class's.",
+ "C13": " roleBase.copy: the copy's Connect slice has its own backing array (append is modelled with in-place growth, so re-slicing the source is caught). GetWantsForDescriptor merges inbound channels with the role-level declarations outranking the task class's. The channel field setters handed to the template engine write the role's own Bind/Connect entries.",
  "C17": " pidExists probes a process group (negative pid) through its leader instead of answering from the sign.",
  "C18": " BuildFrameworkInfo announces the failover timeout whenever one is configured (mesos-go re-subscribes under the stored framework id only then). the Mesos UPDATE handler forwards every status update (also about tasks not in the roster) to the task manager.",
  "C19": " ClearEventWriters calls Close on every registered writer before the registry is cleared (map range with visited-set invariant; clear() modelled).",
